@@ -283,6 +283,62 @@ func genMutexRegions(p *pkgFiles, out *strings.Builder) {
 	out.WriteString("]\n\n")
 }
 
+// genQueryLockCalls: queries may be created and closed from several goroutines; every function of the
+// filter/query files that takes or releases a lock bit must do so through the mutex-protected
+// `lockSafe`/`unlockSafe` (the plain `lock`/`unlock` are for the single-goroutine structural operations).
+func genQueryLockCalls(p *pkgFiles, out *strings.Builder) {
+	type row struct{ fn, callee string }
+	var rows []row
+	var names []string
+	for name := range p.files {
+		if strings.HasSuffix(name, "_test.go") {
+			continue
+		}
+		if strings.HasPrefix(name, "filter") || strings.HasPrefix(name, "query") {
+			names = append(names, name)
+		}
+	}
+	sort.Strings(names)
+	for _, name := range names {
+		for _, d := range p.files[name].Decls {
+			fd, ok := d.(*ast.FuncDecl)
+			if !ok || fd.Body == nil {
+				continue
+			}
+			fn := fd.Name.Name
+			if fd.Recv != nil && len(fd.Recv.List) == 1 {
+				fn = recvName(fd.Recv.List[0].Type) + "." + fn
+			}
+			ast.Inspect(fd.Body, func(n ast.Node) bool {
+				call, ok := n.(*ast.CallExpr)
+				if !ok {
+					return true
+				}
+				if se, ok := call.Fun.(*ast.SelectorExpr); ok {
+					switch se.Sel.Name {
+					case "lock", "unlock", "lockSafe", "unlockSafe", "Lock", "Unlock", "LockSafe", "UnlockSafe":
+						// the per-filter mutex (`f.mutex.Lock()`) is not the world lock
+						if strings.HasSuffix(src(se.X), "mutex") || strings.HasSuffix(src(se.X), "mu") {
+							return true
+						}
+						rows = append(rows, row{name + ":" + fn, se.Sel.Name})
+					}
+				}
+				return true
+			})
+		}
+	}
+	out.WriteString("/-- every call that takes or releases a world-lock bit in the filter/query files: (function, callee) -/\ndef queryLockCalls : List (String × String) := [\n")
+	for i, r := range rows {
+		sep := ","
+		if i == len(rows)-1 {
+			sep = ""
+		}
+		fmt.Fprintf(out, "  (%s, %s)%s\n", leanStr(r.fn), leanStr(r.callee), sep)
+	}
+	out.WriteString("]\n\n")
+}
+
 // genEventOrder: position of the removal events relative to the first row mutation in the
 // single-entity operations, and of lock/unlock around them.
 func genEventOrder(p *pkgFiles, out *strings.Builder) {
